@@ -14,7 +14,7 @@ from .world import World, mkscratch, git
 from xandikos.store.git import TreeGitStore  # noqa: E402
 from xandikos.icalendar import ICalendarFile  # noqa: E402
 
-METHODS = ["GET", "PROPFIND", "PUT", "POST", "DELETE", "MKCOL", "MKCALENDAR", "PROPPATCH", "MULTIGET", "SLUG"]
+METHODS = ["GET", "PROPFIND", "PUT", "POST", "DELETE", "MKCOL", "MKCALENDAR", "PROPPATCH", "MULTIGET", "SLUG", "UIDNAME"]
 
 ALLOW_PREFIXES = [sys.prefix, sys.base_prefix, "/repo", "/verif", "/usr", "/etc", "/proc", "/dev",
                   "/venv", "/root/.pyenv", "/lib", "/sys", "/opt", "/tmp",
@@ -166,6 +166,14 @@ def send(w, method, target):
     if method == "SLUG":
         # the vector travels as the name hint of a POST to a normal calendar (Slug, RFC 5023 9.7)
         return w.raw("POST", "/cal/", [("Content-Type", "text/calendar"), ("Slug", target.lstrip("/"))], ics)
+    if method == "UIDNAME":
+        # the vector travels as the UID inside the body of a POST to a normal calendar, behind the
+        # name of a directory that exists inside that calendar (a sub-collection a client made)
+        w.raw("MKCOL", "/cal/sub")
+        # (sub/../.. is the data root: from there the vector is the same one the path cases use)
+        uid = "sub/../.." + (target if target.startswith("/") else "/" + target)
+        return w.raw("POST", "/cal/", [("Content-Type", "text/calendar")],
+                     gamma.ics_event(uid.replace("\r", "").replace("\n", ""), "written by the path test"))
     if method == "MULTIGET":
         # the vector travels as an href inside the body of a report on a normal calendar
         return w.raw("REPORT", "/cal/", [("Content-Type", "text/xml"), ("Depth", "1")],
